@@ -19,6 +19,7 @@ import TypedpyModel.Props.C14
 import TypedpyModel.Props.C15
 import TypedpyModel.Props.C16
 import TypedpyModel.Props.C17
+import TypedpyModel.Props.C17Deser
 import TypedpyModel.Props.C18
 import TypedpyModel.Props.C19
 import TypedpyModel.Props.C20
